@@ -186,7 +186,7 @@ MkTensor(legs, qtotal, labels, f(_)) ==
 \* same, but the blocks (qindex tuples, 1-based) listed in `missing` are left zero (not stored)
 MkTensorM(legs, qtotal, labels, f(_), missing) ==
     Tensor(legs, qtotal, labels,
-           Mk(ShapeOf(legs), LAMBDA idx : IF IndexCharge(legs, idx) = qtotal /\ [a \in 1..Len(legs) |-> QIndex(legs[a], idx[a])] \notin missing
+           Mk(ShapeOf(legs), LAMBDA idx : IF IndexCharge(legs, idx) = qtotal /\ ([a \in 1..Len(legs) |-> QIndex(legs[a], idx[a])] \o <<>>) \notin missing
                                           THEN f(idx) ELSE GZero))
 
 \* operations.  Each Can* is the precondition under which tenpy accepts the call.
